@@ -29,10 +29,11 @@ def per_path(ctx, po, sh):
 
 
 def body(ctx):
-    ctx.cov['outside_claim'] = ['panics inside the syn-driven parse layer other than the repeat kernels', 'shapes beyond the sweep families (see bounds)']
+    ctx.cov['outside_claim'] = ['argument token sequences beyond the menus of kernels_ast.py (the parse layer is executed on ~400 odd argument lists with a symbolic instruction name)', 'panics inside syn / quote / proc-macro2 themselves', 'shapes beyond the sweep families (see bounds)']
     ctx.assumptions = ['library models (coverage.models_used)', 'a predicted panic is reported only when the real derive panics on the rendered witness']
     expander.sweep(ctx, ['flat', 'params', 'ghosts', 'child', 'parent', 'enum'], per_path)
     kernels_ast.repeat_panics(ctx)
+    kernels_ast.parse_layer_panics(ctx)
 
 
 if __name__ == '__main__':
